@@ -171,7 +171,7 @@ def extract_default(
             )
             rest_offset += offset
 
-        fst = line[: _start_idx - 1]
+        fst = line[: max(_start_idx - 1, 0)]
         return fst + line[rest_offset:], default
 
 
